@@ -295,3 +295,17 @@ META["C04"] = {
         "sums agree with the serial ones within (P+4) eps x sum of magnitudes; bit-identical for PLAIN and first VEGAS iterations of the dyadic integrand",
     ],
 }
+
+META["C18"] = {
+    "level": "fault_enumeration",
+    "tiers": {
+        "quick": {"shards": 3, "deadline_s": 400,
+                  "bounds": "PLAIN (about 300 byte checkpoints), VEGAS 128 bins x 4 dimensions (about 13 kB per result, several write calls per checkpoint), MULTI-CHANNEL 30 channels; 3 iterations; silent_and_write_chkpt and verbose_and_write_chkpt; file absent or holding an older (empty) checkpoint; every position in the operation log and every byte prefix of every write; real-kill validation at every log position with byte prefixes {0, 1, middle, last}; 3 types"},
+        "thorough": {"shards": 3, "deadline_s": 1800, "bounds": "as quick with real-kill validation at every 97th byte of every write"},
+    },
+    "rule": "fault enumeration over crash points: (operation index, bytes of the write in flight); byte prefixes of a write to a file other than the checkpoint file leave the checkpoint file unchanged and are counted once per operation; distinct = distinct crash points whose checkpoint-file content was judged; non-trivial = every crash point",
+    "assumptions": [
+        "kill model of the property: every completed system call persists, the call in flight may be cut at any byte; power loss (unsynced data disappearing) is not modelled",
+        "the interposer sees fopen/fopen64/open/creat, write/writev, fclose/close, rename, unlink/remove, truncate/ftruncate, fsync; a run whose real directory differs from the state predicted from the log ends with a harness error (exit 2), never a silent pass; positional or short writes are harness errors as well",
+    ],
+}
